@@ -76,6 +76,25 @@ def trainRowOk (row : Nat × Int × List Int × Option (List Int)) : Bool :=
     | _ => false
   | _, _ => false
 
+/-- the baseline of the `inspectProbes` rows -/
+def inspectProbeProfile : Profile := ⟨10, 20, 1 / 2, 3 / 2, 1 / 2, 1, 1 / 8, [1, 2], [1], 3 / 4⟩
+
+/-- the fingerprints of the `inspectProbes` rows: inside the baseline / too slow / too long, too slow and unsure -/
+def inspectProbePeptide (kind : Nat) (ca : Option Int) : Peptide :=
+  match kind with
+  | 0 => ⟨15, 0, 1, 0, 3 / 4, 0, 1, 1, 0, ca.map q256⟩
+  | 1 => ⟨15, 0, 7 / 4, 0, 3 / 4, 0, 1, 1, 0, ca.map q256⟩
+  | _ => ⟨21, 0, 7 / 4, 0, 1 / 4, 0, 1, 1, 0, ca.map q256⟩
+
+/-- an `inspectProbes` row says what the model's `TCell.inspect` says -/
+def inspectRowOk (row : ((Int × Nat × Int × Nat × Bool) × (Nat × Option Int)) ×
+    Option (Level × Action × Signal1 × Signal2 × Nat × Bool × Nat)) : Bool :=
+  match row with
+  | (((rep, k, an, cnt, fl), (kind, ca)), out) =>
+    let t : TCell := ⟨inspectProbeProfile, rep, an, k, cnt, fl, .self, .absent⟩
+    let res := t.inspect (inspectProbePeptide kind ca)
+    out == some (res.2.level, res.2.action, res.2.s1, res.2.s2, res.2.viols.length, res.2.anergic, res.1.anomaly)
+
 /-! ### Baseline check -/
 
 def InBaseline (pr : Profile) (p : Peptide) : Prop :=
